@@ -124,6 +124,9 @@ TEXTS_OK = [b"x", b"hello", b"a b", b"<", b">", b"&", b'"', b"'", b"]]>", b"a]]>
             b"tab\there", b"  two  words  ", b"\x0b", b"\x0c x", b"a\xc2\xa0b",
             # every continuation octet 0x80..0xBF after two lead octets (a table indexed by `octet & 0x7f` aliases them onto the
             # ASCII markup characters), and one character per lead-octet class
+            # runs of more than two "]" before ">" (a generator that escapes ">" only after exactly "]]"), and the pieces
+            # that adjacent text items join into such runs
+            b"]]]>", b"m[a[b[0]]]>1", b"]]]]>>", b"]", b"]]]",
             "Par. \u00a77: 5\u00a2 for \u00bc or \u00be \u00a6 caf\u00e9".encode("utf-8"),
             "".join(chr(c) for c in range(0xA0, 0x100)).encode("utf-8"),
             "\u0100\u02b0\u03a9\u0416\u07ff\u0800\u4e00\ud7a3\ue000\U00010000\U0010fffd".encode("utf-8")]
